@@ -2,6 +2,7 @@ package main
 
 import (
 	"encoding/binary"
+	"encoding/json"
 	"fmt"
 	"math/rand"
 )
@@ -504,6 +505,104 @@ func genPrograms(prop, out, tier string, rng *rand.Rand) {
 	}
 	RunTasks(sink, tasks, progNontrivial)
 	exhaustive := false
+	if prop == "C12" {
+		// directed: predicates that never look at cells (and compositions of them), on an existing and on a
+		// missing row; the branch mutations do not touch the existing cells, so "nothing else changes" shows
+		t := tname(parentA, "t1")
+		rk := func(lit byte) *Filter { return &Filter{Kind: "rowkey", Rx: &Regex{Re: &Re{Kind: "cat", A: &Re{Kind: "lit", B: int(lit)}, C: &Re{Kind: "star", A: &Re{Kind: "any"}}}}} }
+		base := []*Filter{{Kind: "pass", Flag: true}, {Kind: "block", Flag: true}, rk('r'), rk('z'), {Kind: "sample", Prob: 0.5}, {Kind: "strip"}, {Kind: "rowlimit", N: 0}, {Kind: "collimit", N: 1}}
+		var preds []*Filter
+		preds = append(preds, base...)
+		for _, a := range base[:5] {
+			for _, b := range base[:5] {
+				preds = append(preds, &Filter{Kind: "interleave", Subs: []*Filter{a, b}}, &Filter{Kind: "chain", Subs: []*Filter{a, b}},
+					&Filter{Kind: "condition", P: a, T: b}, &Filter{Kind: "condition", P: a, F: b, T: &Filter{Kind: "block", Flag: true}})
+			}
+		}
+		var dtasks []Task
+		for _, en := range engines() {
+			for pi, p := range preds {
+				for _, key := range []string{"r1", "absent"} {
+					cam := Call{Req: Req{Kind: "cam", Table: t, Key: []byte(key), Pred: p,
+						TM: []Mutation{{Kind: "set", Fam: "cf2", Q: []byte("true-branch"), Ts: 5000, V: []byte("t")}},
+						FM: []Mutation{{Kind: "set", Fam: "cf2", Q: []byte("false-branch"), Ts: 5000, V: []byte("f")}}}, Now: 1000}
+					if n := countSamples(p); n > 0 {
+						for i := 0; i < 8*n; i++ {
+							cam.Coins = append(cam.Coins, (i+pi)%3 == 0)
+						}
+					}
+					prog := []Call{{Req: Req{Kind: "create", Parent: parentA, Tid: "t1", Fams: []FamDef{{Name: "cf"}, {Name: "cf2"}}}, Now: 1000},
+						{Req: Req{Kind: "mutate", Table: t, Key: []byte("r1"), Muts: []Mutation{{Kind: "set", Fam: "cf", Q: []byte("c1"), Ts: 1000, V: []byte("1")}, {Kind: "set", Fam: "cf", Q: []byte("c2"), Ts: 2000, V: []byte("2")}, {Kind: "set", Fam: "cf", Q: []byte("c1"), Ts: 3000, V: []byte("3")}}}, Now: 1000},
+						cam, {Req: Req{Kind: "read", Table: t}, Now: 1000}}
+					dtasks = append(dtasks, Task{en, "row-level-predicates", prog})
+				}
+			}
+		}
+		RunTasks(sink, dtasks, progNontrivial)
+	}
+	if prop == "C14" {
+		// directed: every sequence of two or three family modifications on families that hold cells
+		t := tname(parentA, "t1")
+		kinds := []string{"create", "update", "drop"}
+		var dtasks []Task
+		for _, en := range engines() {
+			for a := 0; a < 3; a++ {
+				for b := 0; b < 3; b++ {
+					for c := -1; c < 3; c++ {
+						for _, ids := range [][3]string{{"cf", "cf", "cf"}, {"cf", "cf2", "cf"}, {"new", "new", "cf"}} {
+							mods := []FMod{{Kind: kinds[a], ID: ids[0], Rule: &GcRule{Kind: "maxversions", N: 1}}, {Kind: kinds[b], ID: ids[1]}}
+							if c >= 0 {
+								mods = append(mods, FMod{Kind: kinds[c], ID: ids[2], Rule: &GcRule{Kind: "maxage", Secs: 9}})
+							}
+							prog := []Call{{Req: Req{Kind: "create", Parent: parentA, Tid: "t1", Fams: []FamDef{{Name: "cf"}, {Name: "cf2"}}}, Now: 1000},
+								{Req: Req{Kind: "mutate", Table: t, Key: []byte("r1"), Muts: []Mutation{{Kind: "set", Fam: "cf", Q: []byte("q"), Ts: 1000, V: []byte("1")}, {Kind: "set", Fam: "cf2", Q: []byte("q"), Ts: 1000, V: []byte("2")}}}, Now: 1000},
+								{Req: Req{Kind: "mutate", Table: t, Key: []byte("r2"), Muts: []Mutation{{Kind: "set", Fam: "cf", Q: []byte("only"), Ts: 2000, V: []byte("3")}}}, Now: 1000},
+								{Req: Req{Kind: "modify", Table: t, Mods: mods}, Now: 1000},
+								{Req: Req{Kind: "read", Table: t}, Now: 1000}, {Req: Req{Kind: "get", Table: t}, Now: 1000},
+								{Req: Req{Kind: "mutate", Table: t, Key: []byte("r3"), Muts: []Mutation{{Kind: "set", Fam: "cf", Q: []byte("after"), Ts: 3000, V: []byte("4")}}}, Now: 1000},
+								{Req: Req{Kind: "read", Table: t}, Now: 1000}}
+							dtasks = append(dtasks, Task{en, "modify-sequences", prog})
+						}
+					}
+				}
+			}
+		}
+		RunTasks(sink, dtasks, progNontrivial)
+	}
+	if prop == "C03" || prop == "C17" {
+		// result sets that span several response messages: rows of 300 cells, limits around the flush
+		t := tname(parentA, "t1")
+		setup := []Call{{Req: Req{Kind: "create", Parent: parentA, Tid: "t1", Fams: []FamDef{{Name: "cf"}}}, Now: 1000}}
+		var bulk []BulkRow
+		for i := 0; i < 9; i++ {
+			b := BulkRow{Key: scanKey(i), Fam: "cf", NQ: 3, NV: 100, Base: 1000000, V: []byte{byte('a' + i)}}
+			bulk = append(bulk, b)
+			setup = append(setup, Call{Req: Req{Kind: "mutate", Table: t, Key: b.Key, Muts: b.muts()}, Now: 1000})
+		}
+		var reads []Call
+		for _, lim := range []int64{0, 1, 3, 4, 5, 6, 8, 9, 10} {
+			reads = append(reads, Call{Req: Req{Kind: "read", Table: t, Limit: lim}, Now: 1},
+				Call{Req: Req{Kind: "read", Table: t, Limit: lim, Keys: [][]byte{scanKey(8)}, Ranges: []RowRange{{S: Bound{Kind: "open", K: scanKey(0)}, E: Bound{Kind: "closed", K: scanKey(6)}}}}, Now: 1})
+		}
+		var mjobs []concJob
+		for _, en := range engines() {
+			mjobs = append(mjobs, concJob{en, setup, nil, nil, reads, bulk, "multi-message"})
+		}
+		results := make([]*ConcCase, len(mjobs))
+		parallelN(3, len(mjobs), func(i int) {
+			j := mjobs[i]
+			results[i] = runConc(j.en, j.setup, j.threads, j.sched, j.final, j.bulk, j.tag)
+		})
+		for _, c := range results {
+			js, _ := json.Marshal(c)
+			pc := Case{Store: c.Store, Tag: c.Tag}
+			for i, f := range c.Final {
+				pc.Prog = append(pc.Prog, f)
+				pc.Obs = append(pc.Obs, c.FinalR[i])
+			}
+			sink.AddPreV("multi", "check_conc", "ccase", pc, c.coq(), js, true)
+		}
+	}
 	if prop == "C03" || prop == "C17" {
 		// the complete RowSet space over the adversarial key universe (variant enum)
 		genEnum(sink, tier)
